@@ -25,7 +25,10 @@
 //   (otherwise the record carries "!cbmismatch").
 //
 // Requests are executed in a forked child; when a child dies (sanitizer report, signal) during request i, the
-// answer of request i is "fault" and a new child continues with request i + 1.  Sanitizer reports go to stderr.
+// answer of request i is "fault" ("timeout" if the request ran for more than 10 s and was killed by alarm()) and a
+// new child continues with request i + 1; after the second timeout the remaining requests are answered "skipped".
+// Sanitizer reports go to stderr.
+#include <signal.h>
 #include <sys/wait.h>
 #include <unistd.h>
 
@@ -169,6 +172,7 @@ int main() {
   while (std::getline(std::cin, line)) lines.push_back(line);
   std::vector<std::string> answers(lines.size(), "fault");
   size_t start = 0;
+  int timeouts = 0;
   while (start < lines.size()) {
     int fd[2];
     if (pipe(fd) != 0) return 2;
@@ -180,7 +184,9 @@ int main() {
       FILE* w = fdopen(fd[1], "w");
       for (size_t i = start; i < lines.size(); ++i) {
         fprintf(stderr, "@request %zu\n", i);
+        alarm(10);  // a framer that does not terminate kills this child with SIGALRM
         std::string a = run_request(lines[i]);
+        alarm(0);
         fprintf(w, "%zu %s\n", i, a.c_str());
         fflush(w);
       }
@@ -211,6 +217,13 @@ int main() {
     waitpid(pid, &status, 0);
     size_t done = any ? last + 1 : start;  // first request without an answer
     if (done >= lines.size()) break;
+    if (WIFSIGNALED(status) && WTERMSIG(status) == SIGALRM) {
+      answers[done] = "timeout";
+      if (++timeouts >= 2) {  // do not spend 10 s on each of thousands of requests
+        for (size_t i = done + 1; i < lines.size(); ++i) answers[i] = "skipped";
+        break;
+      }
+    }
     start = done + 1;  // request `done` killed the child: its answer stays "fault"
   }
   for (const auto& a : answers) puts(a.c_str());
